@@ -496,6 +496,7 @@ class Session:
               replay=None, vars_=(), expect='unsat', note='', rgoal=None):
         """check hyps /\\ not goal.  replay(model)-> ('reproduced'|'not-reproduced'|'no-replay', info)"""
         timeout = timeout or s.cap(150, 300)
+        if mandatory and expect == 'unsat': timeout = max(timeout, 90)       # mandatory obligations must be decided: a short cap only risks a spurious INCONCLUSIVE on a slower or loaded machine
         asserts = list(hyps) + [z3.Not(goal)]
         try:
             r, m, dt, used = s.query(asserts, timeout, solver, vars_)
